@@ -74,9 +74,10 @@ static vh_buf_t msg;
 static const char * const kind_names[] = { "Int8", "UInt8", "Int16", "UInt16", "Int32", "UInt32", "Int64", "UInt64", "Bool", "Text", "Block", "Float", "Double",
     "ArrayInt32", "ArrayUInt32", "ArrayInt64", "ArrayUInt64", "ArrayFloat", "ArrayDouble", "ArrayInt8", "ArrayUInt8", "ArrayInt16", "ArrayUInt16" };
 
+static size_t g_inbuf = INBUF;
 static void ctx_fresh(void) {
     if (V) vh_ctx_free(V);
-    V = vh_ctx_new(cmds, INBUF, 8, 64);
+    V = vh_ctx_new(cmds, g_inbuf, 8, 64);
     V->log_enabled = 0;
 }
 
@@ -413,9 +414,23 @@ static void p6_run(uint64_t idx, vh_rng_t * rng) {
 #endif
 /* ---- ASCII arrays ----------------------------------------------------------------------------------------- */
 static uint64_t p7_count(int thorough) { return vh_scaled(thorough ? 300000 : 12000); }
-static void p7_run(uint64_t idx, vh_rng_t * rng) {
+static void array_case(uint64_t idx, vh_rng_t * rng, size_t n);
+static void p7_run(uint64_t idx, vh_rng_t * rng) { array_case(idx, rng, 1 + vh_below(rng, 12)); }
+/* one response with more items than a 16-bit counter holds (a waveform returned in ASCII); item count is not bounded by the property */
+static const size_t long_n[] = { 32767, 32768, 32769, 40000, 65535, 65536, 65537, 70000 };
+static uint64_t p8_count(int thorough) { return thorough ? 80 : 20; }
+static void p8_run(uint64_t idx, vh_rng_t * rng) {
+    size_t n = long_n[(idx * 3 + idx / 10) % 8];
+    if (V) { vh_ctx_free(V); V = NULL; }
+    g_inbuf = n * 26 + 64;
+    array_case(idx, rng, n);
+    if (V) { vh_ctx_free(V); V = NULL; }
+    g_inbuf = INBUF;
+    vh_count(n > 65536 ? "array.long.more_than_65536_items" : n > 32768 ? "array.long.more_than_32768_items" : "array.long.up_to_32768_items", 1);
+}
+static void array_case(uint64_t idx, vh_rng_t * rng, size_t n) {
     static const int kinds[] = { K_AI32, K_AU32, K_AI64, K_AU64, K_AF, K_AD, K_AI8, K_AU8, K_AI16, K_AU16 };
-    int kind = kinds[idx % 10]; size_t n = 1 + vh_below(rng, 12), i, esz, rsz; int rd;
+    int kind = kinds[idx % 10]; size_t i, esz, rsz; int rd;
     unsigned char * a; const char * t; size_t tl;
     switch (kind) { case K_AI8: case K_AU8: esz = 1; break; case K_AI16: case K_AU16: esz = 2; break; case K_AI32: case K_AU32: case K_AF: esz = 4; break; default: esz = 8; }
     a = (unsigned char *) malloc(n * esz);
@@ -459,12 +474,12 @@ int main(int argc, char ** argv) {
     static const vh_phase_t phases[] = {
         { "int8+16 exhaustive", p0_count, p0_run }, { "int32", p1_count, p1_run }, { "int64", p2_count, p2_run },
         { "strings exhaustive", p3_count, p3_run }, { "strings random", p4_count, p4_run }, { "blocks", p5_count, p5_run },
-        { "floating point", p6_count, p6_run }, { "ascii arrays", p7_count, p7_run },
+        { "floating point", p6_count, p6_run }, { "ascii arrays", p7_count, p7_run }, { "ascii arrays longer than 32767 items", p8_count, p8_run },
     };
     int rc;
     vh_require("int.roundtrips"); vh_require("text.roundtrips"); vh_require("text.with_double_quote"); vh_require("block.roundtrips");
     vh_require("block.empty"); vh_require("block.len_ge_1000"); vh_require("fp.double_roundtrips"); vh_require("fp.float_roundtrips"); vh_require("array.roundtrips");
-    vh_require("int.negative64");
-    rc = vh_main(argc, argv, "C07", phases, 8);
+    vh_require("int.negative64"); vh_require("array.long.more_than_32768_items"); vh_require("array.long.more_than_65536_items");
+    rc = vh_main(argc, argv, "C07", phases, 9);
     return rc;
 }
